@@ -1,12 +1,12 @@
 /-
-  Oracle/C04.lean — `repeat`, `envs` (C04) and `seq` (C09): the harness itself compares repeated / fresh-process
+  Oracle/C04.lean — `repeat`, `envs`, `clock` (C04) and `seq` (C09): the harness itself compares repeated / fresh-process
   runs; the property holds iff it reports `same`.  There is no per-input model prediction (the theorems are
   about hidden parameters, which the implementation side realises by repetition and environment changes).
 -/
 namespace WhatIs.Oracle.C04
 
 def handle (op : String) (_args : List String) (impl : String) : Option (String × String) :=
-  if op = "repeat" ∨ op = "envs" then
+  if op = "repeat" ∨ op = "envs" ∨ op = "clock" then
     some ("skip", if impl.startsWith "same" then "holds"
       else s!"FAILS deterministic: the same content under the same name gives different output ({impl})")
   else if op = "seq" then
